@@ -42,7 +42,9 @@ TEMPLATES = {
     "T02": "{ x: n y: n n nn z: nn }",
     "T03": "{ n n mid { n } mid { leaf { n } } mid { n leaf { s } } }",
     "T04": "query Q($s: Boolean!, $i: Boolean!) { n @skip(if: $s) nn @include(if: $i) mid @skip(if: $s) @include(if: $i) { n } "
-           "k: n @skip(if: true) j: n @include(if: true) l: n @skip(if: false) @include(if: false) }",
+           "k: n @skip(if: true) j: n @include(if: true) l: n @skip(if: false) @include(if: false) "
+           "o1: n @include(if: $i) @skip(if: $s) o2: nn @include(if: true) @skip(if: $s) ... @include(if: $i) @skip(if: $s) { o3: n } ...O4 @include(if: $i) @skip(if: $s) } "
+           "fragment O4 on Query { o4: nn }",
     "T05": "{ mids { leaves { n s } n } }",
     "T06": "{ ...F ...F x: n } fragment F on Query { n mid { ...G } } fragment G on Mid { n leaf { b ...H } } fragment H on Leaf { s }",
     "T07": "query Q($i: Boolean!) { ... { n } ... on Query { nn } ... @include(if: $i) { mid { n } } ... @skip(if: $i) { z: n } }",
